@@ -6,6 +6,7 @@ import stat
 
 from core import Property, Stream, enc, enc_list
 import cli
+import annot_e2e
 
 # ---------------------------------------------------------------------------
 # generator ground truth: the file kinds used, written down from the documentation
@@ -565,7 +566,7 @@ class AnnotateStream(Stream):
 
 PROPERTY = Property(
     pid="C11",
-    streams=[AnnotateStream()],
+    streams=[AnnotateStream(), annot_e2e.AnnotateE2EStream()],
     assumptions=[
         "the header builder (comment creation, template rendering, the post-render check) is a parameter of the model; which "
         "written paths it fails for is the generator's ground truth (multi-line terminator inside the holder, template that drops "
@@ -576,6 +577,12 @@ PROPERTY = Property(
         "the paths of one invocation are pairwise neither equal nor each other's .license sibling (hypothesis `separate` of the "
         "theorems; naming FILE and FILE.license together processes FILE.license twice)",
         "no symbolic link sits at a .license sibling position (the model's file system has no write-through; C15 covers links)",
-        "comment style by file name, binary detection and `contains_reuse_info` are oracles of the model fed from the generator's table",
+        "comment style by file name, binary detection and `contains_reuse_info` are oracles of the model fed from the generator's table "
+        "(stream annotate); in the composed model (stream annotate-e2e, Model/AnnotateE2E.lean) they are the text-level models "
+        "themselves: the generated style tables, `Model.annotateFile`, `Model.containsReuseInfo`, the covered-files walk; what stays "
+        "an oracle there: binaryornot, license-expression (parses / prints), Jinja (rendering of a found template), the clock",
+        "annotate-e2e: no directory sits at a .license position; a path is not named both directly and through a directory given "
+        "with --recursive (the tool then processes it twice: `all_paths` holds it once relative, once resolved); holders, "
+        "contributors and licences contain no line break",
     ],
 )
